@@ -239,15 +239,45 @@ class RealBinder:
                 cls[p.name] = is_in
             return ("ok", slots, cls)
         pysig = inspect.signature(f.func)
+        stub = self._stub(f.func, pysig)
+        try:
+            bound = stub(*args, **kwargs)  # a real CPython call of a function with the same parameter list
+        except TypeError as e:
+            res = ("err", "TypeError", str(e).replace("stub()", f.func.__name__ + "()")[:200])
+        else:
+            res = ("ok", [bound[n].tag if isinstance(bound.get(n), Sent) else "-" for n in pysig.parameters], None)
+        # cross-check CPython against inspect.Signature.bind (the emulation PEP 362 specifies)
         try:
             ba = pysig.bind(*args, **kwargs)
-        except TypeError as e:
-            return ("err", "TypeError", str(e)[:200])
-        slots = []
-        for name in pysig.parameters:
-            v = ba.arguments.get(name)
-            slots.append(v.tag if isinstance(v, Sent) else "-")
-        return ("ok", slots, None)
+            emu = ("ok", [ba.arguments[n].tag if isinstance(ba.arguments.get(n), Sent) else "-" for n in pysig.parameters], None)
+        except TypeError:
+            emu = ("err",)
+        if emu[0] != res[0] or (emu[0] == "ok" and emu[1] != res[1]):
+            raise core.Infra(f"CPython call and inspect.Signature.bind disagree for {f.func.__name__}{pysig} on {args} {kwargs}")
+        return res
+
+    def _stub(self, func, pysig):
+        k = ("stub", id(func))
+        if k not in self._sig:
+            parts, seen_kwonly = [], False
+            for p in pysig.parameters.values():
+                d = "" if p.default is p.empty else "=None"
+                if p.kind is p.VAR_POSITIONAL:
+                    parts.append("*" + p.name)
+                    seen_kwonly = True
+                elif p.kind is p.VAR_KEYWORD:
+                    parts.append("**" + p.name)
+                elif p.kind is p.KEYWORD_ONLY:
+                    if not seen_kwonly:
+                        parts.append("*")
+                        seen_kwonly = True
+                    parts.append(p.name + d)
+                else:
+                    parts.append(p.name + d)
+            ns: dict = {}
+            exec(f"def stub({', '.join(parts)}):\n    return dict(locals())\n", ns)  # noqa: S102 - harness-generated source
+            self._sig[k] = ns["stub"]
+        return self._sig[k]
 
 
 def nreq_pos(aten: dict) -> int:
@@ -330,10 +360,32 @@ def judge_binding(r: dict, f, npos: int, kws: list[str], res) -> list[str]:
     for k in r["aten"]["kwonly"]:
         if k["name"] in kws:
             check(k, f"k:{k['name']}")
+    for i, x in enumerate(r["aten"]["positional"]):
+        if i >= npos and x["name"] in kws:  # positional schema argument passed by keyword (wide call model)
+            check(x, f"k:{x['name']}")
     for j, p in enumerate(params):
         if p["required"] and slots[j] == "-":
             problems.append(f"required parameter '{p['name']}' unbound")
     return problems
+
+
+def by_keyword_calls(r: dict, rng) -> list[tuple[int, list[str]]]:
+    """Calls of the wide model: the positional schema arguments from some index on are passed by keyword."""
+    pos, kw = r["aten"]["positional"], r["aten"]["kwonly"]
+    req_kw = [k["name"] for k in kw if not k["hasDefault"]]
+    out = []
+    for npos in range(0, len(pos)):
+        rest = pos[npos:]
+        must = [a["name"] for a in rest if not a["hasDefault"]]
+        opt = [a["name"] for a in rest if a["hasDefault"]]
+        out.append((npos, must + opt + req_kw))
+        if opt and must:
+            out.append((npos, must + req_kw))
+        if len(opt) > 1:
+            out.append((npos, must + [rng.choice(opt)] + req_kw))
+    out = [c for c in out if any(k in [a["name"] for a in pos] for k in c[1])]
+    rng.shuffle(out)
+    return out[:4]
 
 
 # ----------------------------------------------------------------------------- names / registry generators
@@ -513,6 +565,73 @@ def run_e2e(which: str) -> tuple[bool, str]:
         dt = prog.model.graph.outputs[0].dtype
         return (str(dt) != "DOUBLE"), f"exported output dtype {dt}, eager dtype torch.float64"
     return False, "export succeeded"
+
+
+def opinfo_calls(run, stats) -> dict:
+    """Real call shapes: PyTorch's OpInfo samples are traced with torch.export; every call_function node gives one
+    (qualified name, number of positional args, keyword names) as the dispatcher really produces it."""
+    import logging
+
+    import torch
+
+    try:
+        from torch.testing._internal import common_methods_invocations as cmi
+    except Exception as e:  # the sample database is test-only infrastructure of torch
+        stats["opinfo_unavailable"] = 1
+        return {}
+    ops = sorted(cmi.op_db, key=lambda o: (o.name, o.variant_test_name))
+    n = run.size(140, len(ops))
+    if n < len(ops):
+        ops = run.rng.sample(ops, n)
+    out: dict = {}
+    logging.disable(logging.CRITICAL)
+    try:
+        for op in ops:
+            try:
+                samples = list(op.sample_inputs("cpu", torch.float32, requires_grad=False))[:2]
+            except Exception:
+                continue
+            for smp in samples:
+                if not isinstance(smp.input, torch.Tensor):
+                    continue
+
+                class M(torch.nn.Module):
+                    def forward(self, x):
+                        return op.op(x, *smp.args, **smp.kwargs)
+
+                try:
+                    with warnings.catch_warnings():
+                        warnings.simplefilter("ignore")
+                        ep = torch.export.export(M().eval(), (smp.input,), strict=False)
+                except Exception:
+                    stats["opinfo_samples_not_exportable"] += 1
+                    continue
+                stats["opinfo_samples_traced"] += 1
+                for node in ep.graph.nodes:
+                    if node.op == "call_function" and isinstance(node.target, torch._ops.OpOverload):
+                        q = node.target.name()
+                        q = q[: -len(".default")] if q.endswith(".default") else q
+                        out.setdefault(q, set()).add((len(node.args), tuple(node.kwargs)))
+    finally:
+        logging.disable(logging.NOTSET)
+    stats["opinfo_ops"] = len(ops)
+    stats["opinfo_distinct_calls"] = sum(len(v) for v in out.values())
+    return out
+
+
+def classify_call(r: dict, npos: int, kws: list[str]) -> str:
+    """conforming | by_keyword (positional schema arguments passed by keyword) | malformed"""
+    pos, kw = r["aten"]["positional"], r["aten"]["kwonly"]
+    kwnames = [a["name"] for a in kw]
+    by_kw = [k for k in kws if k not in kwnames]
+    later = [a["name"] for a in pos[npos:]]
+    supplied = set(range(npos)) | {i for i, a in enumerate(pos) if a["name"] in by_kw}
+    ok = (npos <= len(pos) and all(k in later for k in by_kw) and len(set(kws)) == len(kws)
+          and all(i in supplied for i, a in enumerate(pos) if not a["hasDefault"])
+          and all(a["name"] in kws for a in kw if not a["hasDefault"]))
+    if not ok:
+        return "malformed"
+    return "by_keyword" if by_kw else "conforming"
 
 
 def _fx_ops():
@@ -802,6 +921,22 @@ def resolve_and_dispatch(run, drv, rows, objs, stats, problems, tie_broken) -> s
     return shadowed
 
 
+def tree_fingerprint() -> str:
+    """Hash of the anchored sources: a tree edited while the check runs gives meaningless mixtures."""
+    import hashlib
+
+    h = hashlib.sha1()
+    base = core.REPO / "onnxscript"
+    files = sorted((base / "function_libs" / "torch_lib").rglob("*.py")) + [base / "ir" / "_schemas.py", base / "_internal" / "values.py"] + sorted(
+        (base / "_framework_apis").glob("*.py"))
+    for f in files:
+        try:
+            h.update(f.read_bytes())
+        except OSError:
+            h.update(b"?")
+    return h.hexdigest()
+
+
 # ----------------------------------------------------------------------------- main
 
 
@@ -815,6 +950,7 @@ def main(run: core.Run) -> None:
         "FX calls are modelled as: a prefix of the positional schema arguments covering every one without default, "
         "plus any subset of keyword-only arguments containing those without default",
     ]
+    fp0 = tree_fingerprint()
     try:
         data = ex.load()
     except core.Infra:
@@ -823,6 +959,8 @@ def main(run: core.Run) -> None:
         import traceback
 
         tb = traceback.format_exc()
+        if tree_fingerprint() != fp0:
+            raise core.Infra("the anchored sources under VERIF_REPO changed while the registry was being imported; rerun") from e
         if str(core.REPO) in tb:
             # the tree itself cannot build its registry (a registered function does not compile, a name is refused at
             # import, …): a behavioural difference of the code under test, not an infrastructure failure
@@ -835,6 +973,12 @@ def main(run: core.Run) -> None:
     rows = data["rows"]
     objs = data["objs"]
     stats: Counter = Counter()
+    phases: dict = {"load": round(run.elapsed(), 1)}
+    run.coverage["phase_s"] = phases
+
+    def mark(name: str) -> None:
+        phases[name] = round(run.elapsed() - sum(phases.values()), 1)
+
     stats["rows"] = len(rows)
     for r in rows:
         stats["res_" + r["res"]] += 1
@@ -852,6 +996,7 @@ def main(run: core.Run) -> None:
     run.coverage["translator"] = gen
     audit = run.prove(PROP_MODULES)
     drv = core.Driver("C16")
+    mark('prove_and_build')
 
     waived, owner = load_waivers(run)
     lw = lean_waivers()
@@ -889,7 +1034,9 @@ def main(run: core.Run) -> None:
             if strip(tsig) != strip(r["sig"]):
                 tie_broken.append({"kind": "sig", "qualified": r["qualified"], "detail": f"/repo classifies {strip(r['sig'])}, the exporter {strip(tsig)}"})
 
+    mark('rows_twin')
     # ---- (a) bind correspondence + oracle on the real binder
+    real_calls = opinfo_calls(run, stats)
     cap = run.size(40, 400)
     lines, meta = [], []
     corpus = [json.loads(l) for l in (core.VERIF / "harness" / "corpus_c16.jsonl").read_text().splitlines() if l.strip()]
@@ -902,10 +1049,29 @@ def main(run: core.Run) -> None:
             if c["qualified"] == r["qualified"] and c.get("isComplex", False) == r["isComplex"] and (c["npos"], c["kws"]) not in calls:
                 if nreq_pos(r["aten"]) <= c["npos"] <= len(r["aten"]["positional"]):
                     calls.append((c["npos"], c["kws"]))
+        extra_tie_only = []
+        if not r["isComplex"]:
+            for npos, kws in sorted(real_calls.get(r["qualified"], ())):
+                kind = classify_call(r, npos, list(kws))
+                stats["opinfo_calls_" + kind] += 1
+                if kind == "malformed":
+                    raise core.Infra(f"torch traced {r['qualified']} with {npos} positionals and keywords {list(kws)}: not a call of {r['schemaText']}")
+                if kind == "conforming":
+                    if (npos, list(kws)) not in calls:
+                        calls.append((npos, list(kws)))
+                        stats["opinfo_calls_beyond_enumeration"] += 1
+                else:
+                    extra_tie_only.append((npos, list(kws)))
+                    if not r.get("bindsOkK"):
+                        stats["opinfo_by_keyword_calls_outside_theorem"] += 1
         for npos, kws in calls:
             lines.append(bind_line(r, npos, kws))
             meta.append((idx, npos, kws, True))
-        for npos, kws in nonconforming_calls(r):
+        if r["res"] == "resolved":
+            for npos, kws in by_keyword_calls(r, run.rng):
+                lines.append(bind_line(r, npos, kws))
+                meta.append((idx, npos, kws, "K"))
+        for npos, kws in extra_tie_only + nonconforming_calls(r):
             lines.append(bind_line(r, npos, kws))
             meta.append((idx, npos, kws, False))
     outs = drv.ask(lines)
@@ -914,7 +1080,7 @@ def main(run: core.Run) -> None:
         r, f = rows[idx], objs[idx]
         res = rb.bind(f, npos, kws)
         stats["bind_calls"] += 1
-        stats["bind_conforming" if conf else "bind_nonconforming"] += 1
+        stats["bind_conforming" if conf is True else "bind_by_keyword" if conf == "K" else "bind_nonconforming"] += 1
         if res[0] == "ok":
             real = "ok " + ",".join(t if t == "-" else (t if t.startswith("p") else t) for t in res[1])
             stats["bind_ok"] += 1
@@ -927,12 +1093,24 @@ def main(run: core.Run) -> None:
         if model != real:
             tie_broken.append({"kind": "bind", "qualified": r["qualified"], "isComplex": r["isComplex"], "npos": npos, "kws": kws,
                                "detail": f"real binder: {real} ; Lean bind: {mout}"})
-        if conf:
+        if conf == "K":
+            # wide call model: `bind_ok_sound_by_keyword` promises a right binding exactly for the bindsOkK rows
+            stats["by_keyword_calls"] += 1
+            bad = judge_binding(r, f, npos, kws, res)
+            if r.get("bindsOkK"):
+                stats["by_keyword_calls_on_bindsOkK_rows"] += 1
+                if bad:
+                    tie_broken.append({"kind": "bind-by-keyword", "qualified": r["qualified"], "npos": npos, "kws": kws,
+                                       "detail": "bindsOkK holds but the real binder does not bind this call right: " + "; ".join(bad)})
+            elif bad:
+                stats["by_keyword_calls_failing_outside_theorem"] += 1
+        elif conf:
             bad = judge_binding(r, f, npos, kws, res)
             if bad:
                 row_call_fail.setdefault(idx, []).append((npos, kws, bad))
                 stats["conforming_calls_failing_oracle"] += 1
 
+    mark('opinfo_and_bind')
     # ---- verdict per row
     known_rows: dict[str, list[str]] = {}
     for idx, (r, t) in enumerate(zip(rows, twin_def)):
@@ -962,6 +1140,7 @@ def main(run: core.Run) -> None:
                                    "detail": f"bindsOk fails ({extra}) but no generated conforming call mis-binds"})
     stats["rows_in_known_findings"] = sum(len(v) for v in known_rows.values())
 
+    mark('verdict_rows')
     # ---- (e) resolution + dispatch through the exporter's own registry
     shadowed = resolve_and_dispatch(run, drv, rows, objs, stats, problems, tie_broken)
 
@@ -970,6 +1149,7 @@ def main(run: core.Run) -> None:
     # ---- (f) real FX calls lowered by the real exporter
     fx_stream(run, drv, rows, objs, stats, problems, tie_broken, waived, shadowed)
 
+    mark('resolve_dispatch_fx')
     # ---- uniqueness (table theorem registry_unique + real data)
     keys = Counter((r["qualified"], r["isComplex"]) for r in rows)
     for k, n in keys.items():
@@ -979,6 +1159,21 @@ def main(run: core.Run) -> None:
         if len(o.overloads) > 1 or len(o.complex) > 1:
             problems.append({"kind": "duplicate", "qualified": o.name, "detail": f"registry record holds {len(o.overloads)} real / {len(o.complex)} complex functions"})
     stats["duplicate_registration_warnings"] = len(data["dup_warnings"])
+    # the real registry's contents replayed through Lean register/torchlibOps must give get_torchlib_ops()'s list, in order
+    seq, fid = [], {}
+    for name, o in data["registry"].items():
+        for g, cx in [(g, False) for g in o.overloads] + [(g, True) for g in o.complex]:
+            fid.setdefault(id(g), len(fid))
+            seq.append((fid[id(g)], name, cx))
+    if all(" " not in n and "/" not in n for _, n, _ in seq):
+        out = drv.ask(["reg " + " ".join(f"{i}/{n}/{'c' if c else 'r'}" for i, n, c in seq)])[0]
+        model_ops = [tuple(x.rsplit("/", 2)) for x in out.split(" # ")[1].split(";") if x] if " # " in out else []
+        real_ops = [(r["qualified"], str(fid.get(id(f), -1)), "c" if r["isComplex"] else "r") for r, f in zip(rows, objs)]
+        stats["real_registry_replayed_entries"] = len(seq)
+        if model_ops != real_ops:
+            k = next((i for i, (a, b) in enumerate(zip(model_ops, real_ops)) if a != b), min(len(model_ops), len(real_ops)))
+            tie_broken.append({"kind": "ops", "qualified": "get_torchlib_ops", "detail": f"get_torchlib_ops() returns {len(real_ops)} entries, Lean torchlibOps of the "
+                               f"same registry {len(model_ops)}; first difference at {k}: real {real_ops[k:k+1]} model {model_ops[k:k+1]}"})
 
     # ---- (b) names
     base = sorted({r["qualified"] for r in rows})
@@ -1005,6 +1200,7 @@ def main(run: core.Run) -> None:
         if not real_name_ok(r["qualified"]):
             problems.append({"kind": "name", "name": r["qualified"], "detail": "registered name is refused by _check_and_normalize_names"})
 
+    mark('names')
     # ---- (c) registry state machine
     seqs = [gen_reg_seq(run.rng) for _ in range(run.size(300, 5000))]
     seqs.insert(0, [(1, "aten::add", False), (2, "aten::add", False), (3, "aten::add", True), (4, "aten::add", True), (5, "internal::x", False)])
@@ -1043,6 +1239,7 @@ def main(run: core.Run) -> None:
             else:
                 tie_broken.append({"kind": "decls", "seq": d, "detail": f"real torch_op: {real} ; Lean runDecls: {mo}"})
 
+    mark('registry_decorator')
     # ---- oracle extras: FunctionProtos of scripted functions
     import onnx
 
@@ -1059,10 +1256,19 @@ def main(run: core.Run) -> None:
         ins = [p["name"] for p in r["sig"] if p["isInput"]]
         ats = sorted(p["name"] for p in r["sig"] if not p["isInput"])
         pats = sorted(list(fp.attribute) + [a.name for a in fp.attribute_proto])
+        ptypes = {a.name: onnx.AttributeProto.AttributeType.Name(a.type) for a in fp.attribute_proto}
+        want = {"int": "INT", "float": "FLOAT", "string": "STRING", "ints": "INTS", "floats": "FLOATS", "strings": "STRINGS"}
+        wrong = [(p["name"], p["attr"], ptypes[p["name"]]) for p in r["sig"]
+                 if not p["isInput"] and p["name"] in ptypes and p["attr"] in want and want[p["attr"]] != ptypes[p["name"]]]
+        if wrong:
+            problems.append({"kind": "proto", "qualified": r["qualified"],
+                             "detail": f"attribute types differ between op_signature and the FunctionProto: {wrong}"})
+        stats["function_proto_attrs_typed"] += len(ptypes)
         if ins != list(fp.input) or ats != pats:
             problems.append({"kind": "proto", "qualified": r["qualified"],
                              "detail": f"op_signature says inputs {ins} attributes {ats}; the FunctionProto has inputs {list(fp.input)} attributes {pats}"})
 
+    mark('protos')
     # ---- known findings: print what reproduces (binding level), plus end-to-end witnesses
     e2e = {}
     for which, (fid, what) in E2E.items():
@@ -1082,6 +1288,9 @@ def main(run: core.Run) -> None:
             ev = [f"{w}: {e2e[w]['detail']}" for w, (i, _) in E2E.items() if i == fid and e2e[w]["reproduces"]]
             run.known(fid, f"{findings[fid]['what']} — rows: {', '.join(sorted(set(names_))) or '-'}" + (f" — exporter: {'; '.join(ev)}" if ev else ""))
 
+    mark('e2e_witnesses')
+    if tree_fingerprint() != fp0:
+        raise core.Infra("the anchored sources under VERIF_REPO changed while the check was running; rerun")
     # ---- verdict
     order = {"call": 0, "undefined": 1, "duplicate": 2, "name": 3, "reg": 4, "proto": 5, "e2e": 6}
     problems.sort(key=lambda p: (order.get(p["kind"], 9), not p.get("registered", False), len(json.dumps(p, default=str))))
@@ -1183,6 +1392,32 @@ def replay(run: core.Run, rows, objs) -> None:
         print(f"REPLAY duplicate {case['qualified']} -> {c} functions")
         if c > 1:
             run.violation(case, "still more than one function for the pair")
+    elif kind == "e2e":
+        import torch
+
+        ops = _fx_ops()
+        label = case.get("qualified")
+        if label in ops:
+            n = 1
+
+            class M(torch.nn.Module):
+                def forward(self, x):
+                    return ops[label](x)
+
+            try:
+                with warnings.catch_warnings():
+                    warnings.simplefilter("ignore")
+                    torch.onnx.export(M().eval(), (torch.rand(2, 3),), dynamo=True, verbose=False)
+                print(f"REPLAY e2e {label}: exports")
+            except Exception as e:
+                print(f"REPLAY e2e {label}: {type(e).__name__}")
+                run.violation(case, f"torch.onnx.export of the operator sample '{label}' still fails: {str(e)[-300:]}")
+        elif label in E2E:
+            n = 1
+            ok, detail = run_e2e(label)
+            print(f"REPLAY e2e {label}: {detail}")
+            if ok:
+                run.violation(case, f"{E2E[label][1]}: {detail}")
     elif kind == "proto":
         import onnx
 
